@@ -79,6 +79,7 @@ structure Cli where
   lazymode : Bool
   sendPingSoon : Nat            -- long send_ping_soon (ms; only ever assigned non-negative constants)
   lastdownstreamtime : Nat
+  lastrawping : Nat             -- time_t lastrawping (raw mode: last keepalive sent)
   sendcnt : Int                 -- long send_query_sendcnt (-1 = not counting)
   recvcnt : Nat                 -- long send_query_recvcnt
   hostnameMaxlen : Int
@@ -96,7 +97,7 @@ def Cli.boot : Cli :=
   { topdomain := [], randSeed := 0, outpkt := Packet.zero, inpkt := Packet.zero, outchunkresent := 0,
     userid := 0, useridChar := 0, useridChar2 := 0, chunkid := 0, chunkidPrev := 0, chunkidPrev2 := 0,
     dataenc := .b32, downenc := 32, doQtype := Gen.T_UNSET, conn := .rawUdp, selecttimeout := 0, lazymode := false,
-    sendPingSoon := 0, lastdownstreamtime := 0, sendcnt := -1, recvcnt := 0, hostnameMaxlen := 255,
+    sendPingSoon := 0, lastdownstreamtime := 0, lastrawping := 0, sendcnt := -1, recvcnt := 0, hostnameMaxlen := 255,
     packrecv := 0, packrecvOos := 0, packrecvServfail := 0, datacmc := 0, running := false, edns0 := false,
     now := 1000 }
 
